@@ -351,8 +351,9 @@ class RExpr:
         text = seg if seg and re.fullmatch(r'[0-9.eE+-]+', seg) else repr(v)
         digits = len(re.sub(r'[^0-9]', '', text.split('e')[0].split('E')[0]).lstrip('0'))
         if self.lift_digits and isinstance(v, float) and digits >= self.lift_digits:
-            self.lifted.append(text)
-            return 'K%d' % (len(self.lifted) - 1)
+            if text not in self.lifted:          # one parameter per distinct literal text
+                self.lifted.append(text)
+            return 'K%d' % self.lifted.index(text)
         return dec_to_frac_text(text)
 
     def tr(self, e):
@@ -451,3 +452,13 @@ def write_if_changed(path, text):
     with open(path, 'w') as f:
         f.write(text)
     return True
+
+def assert_body(repo, relfile, qualname, expected_src):
+    """Fail closed unless the function's body (docstring stripped) is, as an AST, exactly `expected_src`.
+    Used for small glue functions whose behaviour the hand-written model states directly."""
+    fn = load_function(repo, relfile, qualname)
+    got = ast.dump(ast.Module(body=strip_docstring(fn.body), type_ignores=[]))
+    want = ast.dump(ast.parse(textwrap.dedent(expected_src)))
+    if got != want:
+        raise Refuse('%s:%s body differs from the modelled one:\n%s' % (relfile, qualname, ast.unparse(ast.Module(body=strip_docstring(fn.body), type_ignores=[]))[:600]))
+    return fn
